@@ -188,6 +188,10 @@ def _limit_memory():
 
 def _worker_main(modname, conn):
     signal.signal(signal.SIGINT, signal.SIG_IGN)
+    try:
+        os.setpgid(0, 0)      # own process group: whatever the tree under test manages to start is killed with the worker
+    except OSError:
+        pass
     _limit_memory()
     try:
         _assert_tree()
@@ -275,10 +279,13 @@ def run_jobs(modname, jobs, log=print):
     skipped = []
     agg = Aggregate()
 
+    groups = []
+
     def spawn():
         a, b = ctx.Pipe()
         p = ctx.Process(target=_worker_main, args=(modname, b), daemon=True)
         p.start()
+        groups.append(p.pid)
         b.close()
         workers[a] = [p, None, None]
         return a
@@ -354,6 +361,7 @@ def run_jobs(modname, jobs, log=print):
         w[0].join(2)
         if w[0].is_alive():
             w[0].kill()
+    _kill_groups(groups)
     for i, r in enumerate(results):
         if r is not None:
             agg.add(i, r)
@@ -363,6 +371,16 @@ def run_jobs(modname, jobs, log=print):
         r = isolate(modname, jobs[idx], why, log)
         agg.add(idx, r)
     return agg
+
+
+def _kill_groups(pids):
+    """processes started from inside a worker by the tree under test (a loader that calls what a document names) would
+    otherwise outlive the check and keep its output pipe open"""
+    for pid in pids:
+        try:
+            os.killpg(pid, signal.SIGKILL)
+        except (OSError, ProcessLookupError):
+            pass
 
 
 class HarnessError(Exception):
@@ -385,7 +403,7 @@ def isolate(modname, job, why, log=print):
             'T = engine.Tally(trace_path=%r, pid=mod.ID)\n'
             'mod.run_job(pickle.loads(bytes.fromhex(%r)), T)\n'
             'json.dump(T.export(), open(%r, "w"))\n') % (modname, trace, __import__('pickle').dumps(job).hex(), out)
-    p = subprocess.Popen([sys.executable, '-X', 'faulthandler', '-c', code], stderr=subprocess.PIPE)
+    p = subprocess.Popen([sys.executable, '-X', 'faulthandler', '-c', code], stderr=subprocess.PIPE, start_new_session=True)
     t0 = time.time()
     last = None
     last_t = time.time()
@@ -431,6 +449,7 @@ def isolate(modname, job, why, log=print):
         T.ev(1)
         return T.export()
     finally:
+        _kill_groups([p.pid])
         for f in (trace, out):
             try:
                 os.unlink(f)
